@@ -26,6 +26,7 @@ def config(tier):
         "mc": [{"module": "MCApi", "cfg": "MCApi", "workers": 6, "timeout": 1500}],
         "shards": 8 if q else 16,
         "negctl": 12,
+        "emit": [{"name": "comp", "module": "MCApi", "cfg": "MCApiComp", "workers": 8, "env": {}}],
     }
 
 
@@ -46,6 +47,11 @@ def rand_child(r):
 
 def cases(ctx):
     from .. import gen
+    from . import C07
+
+    # spec -> code: every transition of the composition-focused config of the API machine, replayed on a real Circuit
+    for k, t in enumerate(ctx.emitted("comp")):
+        yield {"op": "transition", "t": t, "k": k, "src": "TLCSTEP"}
 
     lib = child_library()
     n = 120 if ctx.quick else 2000
@@ -124,6 +130,10 @@ def _conn_add_sub(r, p, sc_p, strip):
 def run_case(case, ctx):
     import circuitgraph as cg
 
+    if case["op"] == "transition":
+        from . import C07
+
+        return C07.run_transition(case, ctx)
     r = ctx.rng("C06run", case.get("salt", 0), case["op"])
     evs = []
     if case["op"] == "add_subcircuit":
